@@ -162,6 +162,9 @@ func pmmvTryGen(r *vlib.Rand, o pmmvGenOpts) *pmmvConfig {
 				if typ == 1 {
 					typ = 0x101
 				}
+			} else if r.Intn(5) == 0 {
+				// firmware-defined types that look like "available" in part of their bits
+				typ = []uint32{0x101, 0x201, 0x10001, 0x80000001, 0xffffff01, 0x100, 0x10000}[r.Intn(7)]
 			} else {
 				typ = pmmvOtherTypes[r.Intn(len(pmmvOtherTypes))]
 			}
